@@ -36,7 +36,7 @@ const char * const engine_props[] = { "C10", "C11", "C20", NULL };
 enum {
 	N_READS, N_BYTES, N_SESSIONS, N_RESEEDS, N_MULTI, N_FAILCALLS, N_F_OPEN, N_F_READERR, N_F_EINTR, N_F_EOF, N_F_SHORT,
 	N_F_CLOSE, N_F_CLOSE_EINTR, N_F_ALLOC, N_RESEED_FAIL, N_INST_FAIL, N_RESEED_IN_MULTI, N_DH, N_DH_FAIL, N_DH_LEADZERO,
-	N_DH_EDGE, N_DH_CHOSEN_BLIND, N_OSSL_ALLOC, N_OSSL_FAIL, N_FREED_SCANNED, N_ENUM, N_SANITY, N_ZERO_LEN
+	N_DH_EDGE, N_DH_CHOSEN_BLIND, N_OSSL_ALLOC, N_OSSL_FAIL, N_FREED_SCANNED, N_ENUM, N_SANITY, N_ZERO_LEN, N_DH_PRIV_ALIAS
 };
 const char * const engine_counters[] = {
 	"entropy_read_calls", "bytes_generated", "device_sessions", "probe_reseeds", "probe_multi_chunk_requests",
@@ -44,7 +44,8 @@ const char * const engine_counters[] = {
 	"fault_close_failed", "fault_close_eintr", "fault_alloc_failed", "probe_reseed_failed", "probe_instantiation_failed",
 	"probe_reseed_inside_multi_chunk_request", "dh_operations", "probe_dh_failed_cleanly", "probe_dh_result_leading_zero",
 	"probe_dh_edge_peer", "probe_dh_chosen_blinding", "openssl_allocations", "fault_openssl_alloc_failed",
-	"freed_blocks_scanned", "probe_dh_failure_points_enumerated", "sanitychecks", "probe_zero_length_request", NULL
+	"freed_blocks_scanned", "probe_dh_failure_points_enumerated", "sanitychecks", "probe_zero_length_request",
+	"probe_dh_private_value_inside_output_buffer", NULL
 };
 
 /* ================= simulated entropy device ================= */
@@ -215,6 +216,7 @@ static uint8_t last_blinding[32];
 static int last_blinding_known;
 
 static int in_dh, dh_entropy_calls, dh_entropy_rc, dh_inplace;
+static int dh_priv_alias;	/* 1 + offset: the private value is stored inside the buffer that receives the result */
 static size_t dh_draw_len[8];
 static const uint8_t * dh_cur_priv;
 static void set_patterns(const uint8_t priv[32], const uint8_t * blinding);
@@ -643,6 +645,7 @@ dh_once(const uint8_t priv[32], const uint8_t * peer, uint8_t out[256], const st
 {
 	int rc, f0 = simalloc_failed, erc = 0;
 	uint8_t b2[32];
+	const uint8_t * priv_arg = priv;
 
 	first_sess = nsess;
 	devtape = tape;
@@ -665,8 +668,14 @@ dh_once(const uint8_t priv[32], const uint8_t * peer, uint8_t out[256], const st
 		peer = out;
 	} else
 		memset(out, 0xC3, 256);		/* a result that is not written at all must not look like a value */
+	if (dh_priv_alias > 0) {
+		/* the caller keeps its private value inside the buffer it passes for the result (no restrict in the prototype) */
+		memcpy(out + dh_priv_alias - 1, priv, 32);
+		priv_arg = out + dh_priv_alias - 1;
+		R->cnt[N_DH_PRIV_ALIAS]++;
+	}
 	LIB_ENTER();
-	rc = peer ? crypto_dh_compute(peer, priv, out) : crypto_dh_generate_pub(out, priv);
+	rc = peer ? crypto_dh_compute(peer, priv_arg, out) : crypto_dh_generate_pub(out, priv_arg);
 	LIB_LEAVE();
 	in_dh = 0;
 	ossl_count_on = 0;
@@ -804,6 +813,18 @@ do_dh(const struct pline * l)
 	rc = dh_once(privB, peer, k3, l, &tpos, 0);
 	dh_inplace = 0;
 	report_triple("K", privB, peer, 256, k3, rc);
+	/* 5. the private value lives inside the output buffer (start, middle, end) */
+	{
+		static const int offs[] = { 0, 31, 100, 224 };
+
+		dh_priv_alias = 1 + offs[privB[5] & 3];
+		rc = dh_once(privB, NULL, k3, l, &tpos, 0);
+		report_triple("P", privB, (const uint8_t *)"\x02", 1, k3, rc);
+		dh_priv_alias = 1 + offs[privB[6] & 3];
+		rc = dh_once(privB, peer, k3, l, &tpos, 0);
+		report_triple("K", privB, peer, 256, k3, rc);
+		dh_priv_alias = 0;
+	}
 }
 
 static void
